@@ -51,6 +51,7 @@ static BASE_TIME: AtomicBaseTime = AtomicBaseTime::new();
 /// The current process must have write access to that path, to force ctime updates.
 #[inline(never)]
 pub fn add_trusted_path(path: PathBuf) -> Result<()> {
+    #[cfg_attr(woodpile_verif, allow(unused_imports))]
     use std::os::unix::fs::MetadataExt;
 
     let file = std::fs::File::options()
@@ -60,7 +61,10 @@ pub fn add_trusted_path(path: PathBuf) -> Result<()> {
         .truncate(false)
         .open(&path)?;
     let stat = file.metadata()?;
+    #[cfg(not(woodpile_verif))]
     let dev = stat.dev();
+    #[cfg(woodpile_verif)]
+    let dev = verif_stat(&stat)?.0;
     // Check that we can actually use this path for base time updates.
     //
     // This call may fail for I/O, but should not fail
@@ -241,6 +245,7 @@ fn update_base_time(
     file: &std::fs::File,
     options: UpdateOptions,
 ) -> Result<(std::fs::Metadata, Option<(u64, raffle::Voucher)>)> {
+    #[cfg_attr(woodpile_verif, allow(unused_imports))]
     use std::os::unix::fs::MetadataExt;
 
     if options.touch {
@@ -250,7 +255,10 @@ fn update_base_time(
     let begin = std::time::Instant::now();
 
     let stat = file.metadata()?;
-    let dev = stat.dev();
+    #[cfg(not(woodpile_verif))]
+    let (dev, ctime, ctime_nsec) = (stat.dev(), stat.ctime(), stat.ctime_nsec());
+    #[cfg(woodpile_verif)]
+    let (dev, ctime, ctime_nsec) = verif_stat(&stat)?;
     if !TRUSTED_PATHS.read().unwrap().contains_key(&dev) && options.extra_device != Some(dev) {
         return Ok((stat, None));
     }
@@ -258,9 +266,9 @@ fn update_base_time(
         "VOUCH-773ec2a0e62c20cd-f9e079b78e895091-fc1da7b1b77c57cb-594b9cce3091464a",
     );
 
-    let millis_since_epoch = (stat.ctime() as u64)
+    let millis_since_epoch = (ctime as u64)
         .saturating_mul(1000)
-        .saturating_add((stat.ctime_nsec() as u64) / 1_000_000);
+        .saturating_add((ctime_nsec as u64) / 1_000_000);
     let update = (millis_since_epoch, VOUCH_PARAMS.vouch(millis_since_epoch));
 
     let updated = if options.blocking {
@@ -275,6 +283,45 @@ fn update_base_time(
     }
 
     Ok((stat, Some(update)))
+}
+
+/// Verification hook (cfg woodpile_verif): a per-thread queue of `(dev, ctime, ctime_nsec)` triples
+/// (or `None` for an injected I/O error) that stand in for the next `stat` results this module
+/// looks at.  With an empty queue the real metadata is used.
+#[cfg(woodpile_verif)]
+pub mod verif_hooks {
+    use std::cell::RefCell;
+    use std::collections::VecDeque;
+
+    thread_local! {
+        pub(super) static STATS: RefCell<VecDeque<Option<(u64, i64, i64)>>> = const { RefCell::new(VecDeque::new()) };
+    }
+
+    /// Replaces the queue of pending stat results.
+    pub fn set_stats(stats: Vec<Option<(u64, i64, i64)>>) {
+        STATS.with(|s| *s.borrow_mut() = stats.into());
+    }
+
+    /// Number of stat results not consumed yet.
+    pub fn pending_stats() -> usize {
+        STATS.with(|s| s.borrow().len())
+    }
+
+    /// Devices currently trusted.
+    pub fn trusted_devices() -> Vec<u64> {
+        super::TRUSTED_PATHS.read().unwrap().keys().copied().collect()
+    }
+}
+
+#[cfg(woodpile_verif)]
+fn verif_stat(stat: &std::fs::Metadata) -> Result<(u64, i64, i64)> {
+    use std::os::unix::fs::MetadataExt;
+
+    match verif_hooks::STATS.with(|s| s.borrow_mut().pop_front()) {
+        None => Ok((stat.dev(), stat.ctime(), stat.ctime_nsec())),
+        Some(Some(triple)) => Ok(triple),
+        Some(None) => Err(std::io::Error::other("verif: injected stat error")),
+    }
 }
 
 // This smoke test depends on global state, real time, and the
